@@ -632,7 +632,7 @@ func (e *exec) do(line string) string {
 		if err1 != nil || err2 != nil || err3 != nil {
 			return "bad-op"
 		}
-		return runStress(seed, mode, n)
+		return runStress(seed, mode, n, e.file)
 	case "rlgate":
 		return strconv.Itoa(int(config.VerifReleaseLevel()))
 	case "persp":
